@@ -43,7 +43,7 @@ func ReadMessage(r io.Reader, s ws.State, m []Message) ([]Message, error) {
 		return m, err
 	}
 	var p []byte
-	if h.Fin {
+	if h.Fin && h.Length <= maxPayloadPrealloc {
 		// No more frames will be read. Use fixed sized buffer to read payload.
 		p = make([]byte, h.Length)
 		// It is not possible to receive io.EOF here because Reader does not
@@ -61,6 +61,12 @@ func ReadMessage(r io.Reader, s ws.State, m []Message) ([]Message, error) {
 	}
 	return append(m, Message{h.OpCode, p}), nil
 }
+
+// maxPayloadPrealloc is the largest single-frame payload ReadMessage allocates
+// up front; the length is announced by the peer, and make panics for lengths
+// that can not be allocated at all. Bigger payloads are read into a growing
+// buffer.
+const maxPayloadPrealloc = 1 << 20
 
 // ReadClientMessage reads next message from r, considering that caller
 // represents server side.
